@@ -1812,3 +1812,23 @@ mod tests {
         assert_eq!(expression.as_raw(), None);
     }
 }
+
+/// Verification hooks: thin wrappers around internal kernels (feature `verif` only).
+#[cfg(feature = "verif")]
+pub mod verif_hooks_op {
+    use super::*;
+
+    /// `Expression::size` without unit offsets.
+    pub fn expression_size(expression: &Expression, encoding: Encoding) -> Result<usize> {
+        expression.size(encoding, None)
+    }
+
+    /// `Expression::write` without references or unit offsets.
+    pub fn expression_write<W: Writer>(
+        expression: &Expression,
+        w: &mut W,
+        encoding: Encoding,
+    ) -> Result<()> {
+        expression.write(w, None, encoding, None)
+    }
+}
